@@ -372,7 +372,7 @@ func c11cases() []c11case {
 func TestC11(t *testing.T) {
 	rep := lib.NewReport("C11", "model_checking")
 	defer rep.Finish(t)
-	rep.Rule = "for every assignment of contents {absent,h1,h2(,h3)} to (split, path) over 1..3(4) splits uploaded one fake second apart (split IDs co- and counter-ordered with time) x 4 conflict modes: the real Diamond.Commit runs with the Gets of all split index files gated and the DFS releases them in every permutation; oracle = specification of the merge (latest upload wins; losers kept under their uploader; identical content never a conflict; forbid fails iff conflict; flags) + a 1-split diamond equals a plain upload; plus two splits with an overlapping path uploading CONCURRENTLY (blob and vmetadata calls gated, one fake second per call, all interleavings within the preemption bound) then a commit: recorded upload times lie between the file's blob write and the split's completion, and the later upload of the shared path wins; distinct = distinct (case, committed entry set)"
+	rep.Rule = "for every assignment of contents {absent,h1,h2(,h3)} to (split, path) over 1..3(4) splits uploaded one fake second apart (split IDs co- and counter-ordered with time) x 4 conflict modes: the real Diamond.Commit runs with the Gets of all split index files gated and the DFS releases them in every permutation; oracle = specification of the merge (latest upload wins; losers kept under their uploader; identical content never a conflict; forbid fails iff conflict; flags) + a 1-split diamond equals a plain upload; plus two splits with an overlapping path uploading CONCURRENTLY (blob and vmetadata calls gated, one entry per split index file through the verif hook, one fake second per call, all interleavings within the preemption bound) then a commit: recorded upload times lie between the file's blob write and the split's completion, and the later upload of the shared path wins; distinct = distinct (case, committed entry set)"
 	cases := c11cases()
 	hashes := c11hash(nil)
 	parent := lib.RunCases(t, rep, "TestC11", len(cases), 0, 120*time.Second, func(i int) {
@@ -434,12 +434,14 @@ func c11timing(t *testing.T, rep *lib.Report) {
 	mk := func(sid string, files map[string][]byte) lib.ClientFn {
 		return func(x *lib.Exec, id int) error {
 			w := x.Data["w"].(*World)
+			core.VerifIndexEntriesPerFile = 1 // read when the split's file index is created
 			return splitAdd(w.Gated(x, id, gates), "r", x.Data["diamond"].(string), sid, files)
 		}
 	}
 	sc.Phases = [][]lib.ClientFn{{mk("sA", filesA), mk("sB", filesB)}, {func(x *lib.Exec, id int) error {
 		w := x.Data["w"].(*World)
 		time.Sleep(time.Second)
+		core.VerifIndexEntriesPerFile = 0 // the commit writes the bundle with the public default
 		bid, err := diamondCommit(w.Stores(), "r", x.Data["diamond"].(string), model.EnableConflicts)
 		x.Data["bundle"] = bid
 		return err
@@ -527,12 +529,21 @@ func c11timing(t *testing.T, rep *lib.Report) {
 				x.Violate("C11|timing|losing-version-not-kept", fmt.Sprintf("no .conflicts/%s/p entry; entries %v", loser, ents))
 			}
 		}
+		// nothing uploaded by a completed split may be missing from the bundle
+		for _, name := range []string{"a1", "a2", "b1", "p"} {
+			if _, ok := ents[name]; !ok {
+				x.Violate("C11|timing|file-of-a-completed-split-missing", fmt.Sprintf("%q was uploaded by a split that completed, the committed bundle lists %v", name, ents))
+			}
+		}
 		x.SetOutcome(out)
 	}
 	pb := 1
 	if lib.Thorough() {
 		pb = 2
 	}
+	// one entry per split index file (verif hook): the index packer is inside a store call after every file, which is
+	// where its hand-shake with the upload workers can go wrong
+	defer func() { core.VerifIndexEntriesPerFile = 0 }()
 	e := &lib.Explorer{Sc: sc, PreemptBound: pb, MaxExecs: 100000, Budget: 10 * time.Minute}
 	e.Explore(t, rep)
 	rep.Set("executions:"+sc.Name, e.Execs)
